@@ -60,7 +60,11 @@ def run(tier, seed):
     nrep = 0
     for k in sorted({k for k, _ in by}):
         nmax = max(n for kk, n in by if kk == k)
-        for name, f in (("int", lambda i: i), ("float", lambda i: 0.25 * i - 100.0), ("big", lambda i: 1e6 + i)):
+        # (tiny / huge: the float stream scaled by a power of two - exact in binary floating point - must give the
+        # scaled statistics; results are compared in units of that power)
+        for name, f0, unit in (("int", lambda i: i, 1), ("float", lambda i: 0.25 * i - 100.0, 1.0), ("big", lambda i: 1e6 + i, 1.0),
+                               ("tiny", lambda i: 0.25 * i - 1.0, 2.0 ** -70), ("huge", lambda i: 0.5 * i - 2.0, 2.0 ** 60)):
+            f = (lambda i, f0=f0, unit=unit: f0(i) * unit)
             vals = [f(i) for i in range(1, nmax + 1)]
             key = "k=%d values=%s n<=%d" % (k, name, nmax)
             try:
@@ -71,9 +75,10 @@ def run(tier, seed):
                 continue
             for n in range(1, nmax + 1):
                 want_win = [f(i) for i in by[(k, n)]]
-                mean, var, std = _stats(want_win)
+                mean, var, std = _stats([f0(i) for i in by[(k, n)]])
                 gm, gv, gs, gg, gwin, rs = obs[n - 1]
-                sc = max(abs(x) for x in want_win) ** 2
+                gm, gv, gs, gg = gm / unit, gv / unit / unit, gs / unit, gg / unit
+                sc = max(abs(f0(i)) for i in by[(k, n)]) ** 2
                 nrep += 1
                 ctx.count_clause("replay.sw.stats")
                 ctx.nontrivial(("A", k, n, name))
